@@ -463,7 +463,7 @@ Fixpoint present_all (t : tk) (inp : list N) : option tk :=
   | ch :: r => match present_character t ch with None => None | Some t1 => present_all t1 r end
   end.
 
-Definition tok_raw (allow_eof incl_ign : bool) (inp : list N) (eof : bool)
+Definition tokraw_run (allow_eof incl_ign : bool) (inp : list N) (eof : bool)
   : option (bool * bool * N * option token * bool) :=
   match present_all (tk_new allow_eof incl_ign) inp with
   | None => None
